@@ -406,8 +406,10 @@ class Encoder:
   def val(self, x):
     if is_atom(x):
       return {'a': atom_token(x)}
-    if self.atom_pred is not None and id(x) not in self.ids and self.atom_pred(x):
-      return {'a': 'val:' + safe_repr(x)}
+    if self.atom_pred is not None and id(x) not in self.ids:
+      tok = self.atom_pred(x)
+      if tok:
+        return {'a': tok if isinstance(tok, str) else 'val:' + safe_repr(x)}
     if id(x) in self.ids:
       return {'r': self.ids[id(x)]}
     if id(x) in self.onstack:
